@@ -404,17 +404,27 @@ func (r *ClusterReconciler) reconcileBrokerService(ctx context.Context, cluster 
 		if svc.Spec.Type == "" {
 			svc.Spec.Type = corev1.ServiceTypeClusterIP
 		}
+		// Every field below is set from the spec on each reconcile, and cleared when the
+		// spec no longer carries it, so that the Service does not keep values of an earlier spec.
 		if annotations := cluster.Spec.Brokers.Service.Annotations; len(annotations) > 0 {
 			svc.Annotations = copyStringMap(annotations)
+		} else {
+			svc.Annotations = nil
 		}
 		if strings.TrimSpace(cluster.Spec.Brokers.Service.LoadBalancerIP) != "" {
 			svc.Spec.LoadBalancerIP = strings.TrimSpace(cluster.Spec.Brokers.Service.LoadBalancerIP)
+		} else {
+			svc.Spec.LoadBalancerIP = ""
 		}
 		if ranges := cluster.Spec.Brokers.Service.LoadBalancerSourceRanges; len(ranges) > 0 {
 			svc.Spec.LoadBalancerSourceRanges = append([]string(nil), ranges...)
+		} else {
+			svc.Spec.LoadBalancerSourceRanges = nil
 		}
 		if policy := parseExternalTrafficPolicy(cluster.Spec.Brokers.Service.ExternalTrafficPolicy); policy != "" {
 			svc.Spec.ExternalTrafficPolicy = policy
+		} else {
+			svc.Spec.ExternalTrafficPolicy = ""
 		}
 		return controllerutil.SetControllerReference(cluster, svc, r.Scheme)
 	})
